@@ -242,12 +242,12 @@ func dependsOnMode(v ssa.Value, depth int) bool {
 	case *ssa.Parameter:
 		return x.Name() == "strict"
 	case *ssa.UnOp:
-		if f, _ := an.LoadedField(x); f != nil && f.Name() == "Strict" {
+		if f, _ := an.LoadedField(x); f != nil && an.FieldName(f) == "Strict" {
 			return true
 		}
 		return dependsOnMode(x.X, depth+1)
 	case *ssa.Field:
-		return an.FieldOf(x) != nil && an.FieldOf(x).Name() == "Strict"
+		return an.FieldOf(x) != nil && an.FieldName(an.FieldOf(x)) == "Strict"
 	case *ssa.BinOp:
 		return dependsOnMode(x.X, depth+1) || dependsOnMode(x.Y, depth+1)
 	case *ssa.Phi:
